@@ -323,6 +323,13 @@ pub fn stall_outcome(c: &StallCase) -> Outcome {
                 }
                 other => fail!(f, format!("C20/{}/well-behaved-client-blocked-after-failed-handshakes", who), "{:?}", other.map(|r| r.map(|_| ()))),
             }
+            // ... and the peer that was established before all this still exchanges: a refused
+            // or broken handshake touches nobody else's registration
+            if do_exchange {
+                if let Err(e) = realnet::exchange(&mut s, kind, &mut est, "e2").await {
+                    fail!(f, format!("C20/{}/established-peer-disturbed-by-failed-handshakes", who), "{}", e);
+                }
+            }
             // the peer set contains exactly the well-behaved clients
             let ok = eventually(Duration::from_secs(2), || {
                 drain_events(&mut monitor, &mut accepted, &mut failed);
